@@ -10,6 +10,7 @@ import DDS.Props.C05GenSketch
 import DDS.Props.C04GenPag
 import DDS.Props.NonVacuity
 import DDS.Props.C06GenPag
+import DDS.Props.C09GenStore
 
 namespace DDS.Props.NonVacuityGen
 
@@ -434,5 +435,119 @@ example (grow : Int → Int → Int)
   gen_pag_Decode_other grow fb fuel g b _ (by decide) (by decide)
 
 end C06
+
+/-! ## C09GenStore: protobuf conversions of the stores -/
+section C09
+open DDS.PStore DDS.GenPag DDS.Gen.Paginated DDS.Proto DDS.GenProtoStore DDS.Gen.PaginatedProto
+open DDS.Props.C09GenStore
+open DDS.Props.NonVacuity (pagS pagS_inv pagS_content)
+
+theorem pagS_feFuel : forEachFuel pagS ≤ 100 := by decide +kernel
+
+/-- `pag_roundtrip`: `pagS`, the DESCENDING iteration order of the map (lawful, not the identity), every capacity
+    and growth policy -/
+example (cap cap0 : Int) (grow : Int → Int → Int) :
+    ∃ g1 m, BufferedPaginatedStore.ToProto 100 (toGen pagS cap) = .ok (g1, m) ∧
+      some (pbOfGo m) = storeToProto (.pg pagS) ∧
+      ∀ fuel2, pagFuel PStore.new (msgCalls GenSparse.descending m) ≤ fuel2 →
+        ∃ s' cap', BufferedPaginatedStore.MergeWithProto fuel2 GenSparse.descending grow (toGen PStore.new cap0) m
+            = .ok (toGen s' cap') ∧ Inv s' ∧ content s' = [(3, 5 / 2), (40, 1)] := by
+  obtain ⟨g1, m, h1, h2, h3⟩ :=
+    pag_roundtrip pagS pagS_inv cap cap0 grow GenSparse.descending GenSparse.descending_lawful 100 pagS_feFuel
+  refine ⟨g1, m, h1, h2, fun fuel2 hf2 => ?_⟩
+  obtain ⟨s', cap', a1, a2, a3⟩ := h3 fuel2 hf2
+  rw [pagS_content] at a3
+  exact ⟨s', cap', a1, a2, a3⟩
+
+/-- `pag_roundtrip_any`: the same producer, a regenerated generic consumer filling a dense store -/
+example (cap : Int) (fuel2 : Nat) :
+    ∃ g1 m, BufferedPaginatedStore.ToProto 100 (toGen pagS cap) = .ok (g1, m) ∧
+      some (pbOfGo m) = storeToProto (.pg pagS) ∧
+      ∃ st', Gen.StoreProto.MergeWithProto fuel2 GenSparse.descending (Store.new .dense) (toF64 m) = .ok st' ∧
+        Lift.Good st' ∧ st'.kind = .dense ∧
+        Lift.contentOf st' = (Lift.clampOfKind .dense).apply (content pagS) :=
+  pag_roundtrip_any pagS pagS_inv cap GenSparse.descending GenSparse.descending_lawful .dense trivial 100 fuel2
+    pagS_feFuel
+
+/-- a sparse store holding two bins, one negative index, one fractional weight -/
+def spC : Content := [(-3, 2), (5, 1 / 2)]
+
+theorem spC_wf : spC.WF := RoundTrip.wf_of_wfb _ (by decide +kernel)
+
+theorem spC_rep : GenSparse.Rep ⟨spC⟩ spC := ⟨rfl, spC_wf⟩
+
+theorem spC_32 : ∀ p ∈ spC, Lift.I32 p.1 := by
+  intro p hp
+  simp only [spC, List.mem_cons, List.not_mem_nil, or_false] at hp
+  rcases hp with rfl | rfl <;> decide
+
+/-- `sparse_roundtrip`: producer order descending, consumer order ascending, into a lowest-collapsing store with ONE
+    bin (the clamp is not the identity) and into a paginated store -/
+example (fuel fuel2 : Nat) :
+    ∃ m, Gen.SparseProto.SparseStore.ToProto fuel GenSparse.descending ⟨spC⟩ = .ok m ∧
+      some (pbOfGo m) = storeToProto (.sp spC) ∧
+      ∃ st', Gen.StoreProto.MergeWithProto fuel2 MapOrder.ascending (Store.new (.low 1)) (toF64 m) = .ok st' ∧
+        Lift.Good st' ∧ st'.kind = .low 1 ∧ Lift.contentOf st' = (Lift.clampOfKind (.low 1)).apply spC :=
+  sparse_roundtrip spC_rep spC_32 GenSparse.descending MapOrder.ascending GenSparse.descending_lawful
+    GenSparse.ascending_lawful (.low 1) (by show 1 ≤ 1; omega) fuel fuel2
+
+example (fuel fuel2 : Nat) :
+    ∃ m, Gen.SparseProto.SparseStore.ToProto fuel GenSparse.descending ⟨spC⟩ = .ok m ∧
+      some (pbOfGo m) = storeToProto (.sp spC) ∧
+      ∃ st', Gen.StoreProto.MergeWithProto fuel2 MapOrder.ascending (Store.new .pag) (toF64 m) = .ok st' ∧
+        Lift.Good st' ∧ st'.kind = .pag ∧ Lift.contentOf st' = (Lift.clampOfKind .pag).apply spC :=
+  sparse_roundtrip spC_rep spC_32 GenSparse.descending MapOrder.ascending GenSparse.descending_lawful
+    GenSparse.ascending_lawful .pag trivial fuel fuel2
+
+/-- a message with BOTH forms of bins, overlapping at index 5 (map: `-3 ↦ 2`, `5 ↦ 1/2`; contiguous from 4:
+    `1, 0, 3`) -/
+def pbBoth : GoPb.Store F64 :=
+  { BinCounts := [(-3, .fin 2), (5, .fin (1 / 2))], ContiguousBinCounts := [.fin 1, .fin 0, .fin 3],
+    ContiguousBinIndexOffset := 4#32 }
+
+theorem pbBoth_wf : pbBoth.WF := by
+  refine ⟨?_, ?_⟩
+  · intro p hp
+    simp only [pbBoth, List.mem_cons, List.not_mem_nil, or_false] at hp
+    rcases hp with rfl | rfl <;> decide
+  · simp [pbBoth]
+
+theorem pbBoth_fin : Finite pbBoth := by
+  refine ⟨?_, ?_⟩
+  · intro p hp
+    simp only [pbBoth, List.mem_cons, List.not_mem_nil, or_false] at hp
+    rcases hp with rfl | rfl <;> exact ⟨_, rfl⟩
+  · intro c hc
+    simp only [pbBoth, List.mem_cons, List.not_mem_nil, or_false] at hc
+    rcases hc with rfl | rfl | rfl <;> exact ⟨_, rfl⟩
+
+theorem pbBoth_bins : msgBins GenSparse.descending pbBoth = [(5, 1 / 2), (-3, 2), (4, 1), (5, 0), (6, 3)] := by
+  decide +kernel
+
+theorem pbBoth_ok : Lift.BinsOK (msgBins GenSparse.descending pbBoth) := by
+  rw [pbBoth_bins]
+  intro p hp
+  simp only [List.mem_cons, List.not_mem_nil, or_false] at hp
+  rcases hp with rfl | rfl | rfl | rfl | rfl <;> exact ⟨by decide +kernel, fun _ => by decide⟩
+
+theorem wf_51 : Content.WF [((5 : Int), (1 : Rat))] := RoundTrip.wf_of_wfb _ (by decide +kernel)
+
+/-- `mergeWithProto_adds_gen`: into the NON-EMPTY sparse store `[(5, 1)]`; index 5 receives `1 + 1/2 + 0` -/
+example (fuel : Nat) :
+    ∃ st' C, Gen.StoreProto.MergeWithProto fuel GenSparse.descending (.sp [(5, 1)]) pbBoth = .ok st' ∧
+      Lift.Good st' ∧ st'.kind = (Store.sp [(5, 1)]).kind ∧
+      Lift.contentOf st' = (Store.sp [(5, 1)]).clamp.apply C ∧
+      C.lookup 5 = 3 / 2 ∧ C.lookup 6 = 3 ∧ C.lookup (-3) = 2 ∧ C.lookup 4 = 1 := by
+  obtain ⟨st', C, h1, h2, h3, h4, h5⟩ :=
+    mergeWithProto_adds_gen fuel GenSparse.descending GenSparse.descending_lawful (.sp [(5, 1)])
+      ⟨wf_51, by intro p hp; simp only [List.mem_cons, List.not_mem_nil, or_false] at hp; subst hp; decide⟩
+      [(5, 1)] wf_51 (by decide +kernel) pbBoth pbBoth_wf pbBoth_fin pbBoth_ok
+  refine ⟨st', C, h1, h2, h3, h4, ?_, ?_, ?_, ?_⟩
+  · rw [h5]; decide +kernel
+  · rw [h5]; decide +kernel
+  · rw [h5]; decide +kernel
+  · rw [h5]; decide +kernel
+
+end C09
 
 end DDS.Props.NonVacuityGen
